@@ -163,6 +163,7 @@ type AdmView struct {
 	Mutate      string `json:"mutate"`          // error of Mutate ("" = ok)
 	Validate    string `json:"validateMutated"` // Validate on the mutated pod
 	Accepted    bool   `json:"accepted"`
+	Update      string `json:"validateUpdate"` // validating webhook, UPDATE of a stored plain pod into the mutated pod
 }
 
 // BindView is what the binder did.
@@ -475,6 +476,23 @@ func (r *PodRecord) judge(nodeGPUMem int64) {
 	if r.Idem != "same" && r.Idem != "n/a" {
 		sig := "mutate-not-idempotent:" + strings.SplitN(r.Idem, ":", 2)[0]
 		r.add("mutate-not-idempotent", sig, "Mutate(Mutate(p)) != Mutate(p): %s. %s", r.Idem, inp())
+	}
+	// the validating webhook is registered for create and update: an update INTO a pod gets the verdict of its creation
+	for _, av := range []struct {
+		mode string
+		v    AdmView
+	}{{"sharing-on", r.Adm}, {"sharing-off", r.AdmOff}} {
+		if av.v.Mutate == "" && av.v.Update != av.v.Validate {
+			what := "update-accepts-what-create-rejects"
+			if av.v.Update != "" {
+				what = "update-rejects-what-create-accepts"
+				if av.v.Validate != "" {
+					what = "update-and-create-reject-differently"
+				}
+			}
+			r.add("update-verdict-differs-from-create", "update-verdict-differs-from-create:"+what+":"+av.mode,
+				"ValidateCreate(p)=%q but ValidateUpdate(plain pod -> p)=%q. %s", av.v.Validate, av.v.Update, inp())
+		}
 	}
 	if (r.Adm.ValidateRaw == "") != (r.Adm.Validate == "") && r.Adm.Mutate == "" {
 		r.add("validate-changes-after-mutate", "validate-changes-after-mutate", "Validate(p)=%q but Validate(Mutate(p))=%q. %s", r.Adm.ValidateRaw, r.Adm.Validate, inp())
